@@ -238,7 +238,7 @@ func checkC20(c *core.Ctx) {
 	// error census
 	n := 300
 	if c.Thorough() {
-		n = 6000
+		n = 20000
 	}
 	rng := rand.New(rand.NewSource(c.Seed*160481183 + 20))
 	var recs []errRec
@@ -326,7 +326,7 @@ func checkC20(c *core.Ctx) {
 	// validation and coercion on a few schemas
 	nsch := 2
 	if c.Thorough() {
-		nsch = 10
+		nsch = 25
 	}
 	noSchema := false
 	for si := 0; si < nsch; si++ {
